@@ -46,10 +46,10 @@ def dist_fn(dist, c, a, b):
 
 
 def run(ctx):
-    n = 1500 if ctx.tier == "quick" else 30000
+    n = ctx.n(1500, 30000)
     stats = histprop.run_history_property(ctx, "C01", gen_case, n, RULE, nontrivial, dist_fn=dist_fn)
     rng = core.Rng(ctx.seed + 1)
-    nf = 250 if ctx.tier == "quick" else 5000
+    nf = ctx.n(250, 5000)
     chains = [[[l] for l in dgen.chain(rng.fork("fc%d" % i))] for i in range(nf)]
     done = filepass.run_layers_through_files(ctx, chains, rng, "C01", "c01-disagreement")
     stats["distribution"]["chains_through_layer_files"] = done
